@@ -340,4 +340,43 @@ pub fn run_c11(r: &mut Report) {
         r.case(&format!("olpc-{:?}", t), json!({"text": t, "reference_bytes": reference}), "ed25519 signature over the OLPC reference bytes equals the library's signature",
                format!("lib={} ref={}", lib_sig["sig"], ref_sig["sig"]), lib_sig["sig"] == ref_sig["sig"]);
     }
+    // member ORDER: sibling names from every range (ASCII, Latin-1, BMP below and above the surrogate block, astral) side by side in
+    // every map of a link (artifact paths, environment names, extra byproduct names): the reference orders members by code point
+    {
+        fn olpc2(v: &serde_json::Value, out: &mut String) {
+            match v {
+                serde_json::Value::String(s) => out.push_str(&format!("\"{}\"", s.replace('\\', "\\\\").replace('"', "\\\""))),
+                serde_json::Value::Array(a) => { out.push('['); for (i, x) in a.iter().enumerate() { if i > 0 { out.push(',') } olpc2(x, out) } out.push(']') }
+                serde_json::Value::Object(o) => { out.push('{'); let mut ks: Vec<&String> = o.keys().collect(); ks.sort_by(|a, b| a.chars().map(|c| c as u32).cmp(b.chars().map(|c| c as u32)));
+                    for (i, key) in ks.iter().enumerate() { if i > 0 { out.push(',') } olpc2(&serde_json::Value::String((*key).clone()), out); out.push(':'); olpc2(&o[*key], out) } out.push('}') }
+                other => out.push_str(&other.to_string()),
+            }
+        }
+        let names = ["a", "Z", "~", "aa", "a~", "\u{80}", "\u{e9}", "\u{7ff}", "\u{800}", "\u{d7ff}", "\u{e000}", "\u{e000}x", "\u{ff21}", "\u{fffd}", "\u{ffff}",
+                     "\u{10000}", "\u{1f600}", "\u{1f600}a", "\u{10ffff}", "a\u{1f600}", "a\u{fffd}", "a\u{e000}"];
+        let mut td = in_toto::models::TargetDescription::new();
+        td.insert(in_toto::crypto::HashAlgorithm::Sha256, in_toto::crypto::HashValue::new(vec![7; 32]));
+        let mut arts = std::collections::BTreeMap::new();
+        let mut env = std::collections::BTreeMap::new();
+        let mut bp = ByProducts::new().set_return_value(0);
+        for n in names {
+            arts.insert(in_toto::models::VirtualTargetPath::from(n), td.clone());
+            env.insert(n.to_string(), "v".to_string());
+            bp = bp.set_other_field(n.to_string(), "o".to_string());
+        }
+        let link = LinkMetadataBuilder::new().name("siblings".into()).materials(arts.clone()).products(arts).env(Some(env)).byproducts(bp).build().unwrap();
+        let md = MetadataWrapper::Link(link);
+        let mb = Metablock::new(md.clone(), &[&k]).unwrap();
+        let mut reference = String::new();
+        olpc2(&serde_json::to_value(&md).unwrap(), &mut reference);
+        let lib_sig = serde_json::to_value(&mb.signatures[0]).unwrap();
+        let ref_sig = serde_json::to_value(&k.sign(reference.as_bytes()).unwrap()).unwrap();
+        r.case("olpc-sibling-member-order", json!({"names": names.len()}), "ed25519 signature over the OLPC reference bytes (members in code-point order) equals the library's signature",
+               format!("lib={} ref={}", lib_sig["sig"], ref_sig["sig"]), lib_sig["sig"] == ref_sig["sig"]);
+        // and the other way round: the same document signed outside over the reference bytes verifies here
+        let doc = json!({"signatures": [ref_sig], "signed": serde_json::to_value(&md).unwrap()});
+        let parsed: Result<Metablock, _> = serde_json::from_str(&doc.to_string());
+        let obs = match &parsed { Ok(m) => match no_panic(|| m.verify(1, [k.public()])) { Ok(Ok(_)) => "verified".to_string(), Ok(Err(e)) => format!("verify: {}", e), Err(p) => format!("panic: {}", p) }, Err(e) => format!("parse: {}", e) };
+        r.case("external-sibling-member-order", json!({"names": names.len()}), "a document signed over its reference canonical bytes outside the library parses and verifies", obs.clone(), obs == "verified");
+    }
 }
